@@ -1479,6 +1479,66 @@ func genLSM(repo, out string) {
 }
 
 // genTable writes Generated/Table.lean: the binary searches Data.LowerBound and Index.LowerBound
+// genWal: wal/wal.go — WAL.Write
+func genWal(repo, out string) {
+	p := parseDir(repo + "/wal")
+	var sb strings.Builder
+	sb.WriteString("/-! GENERATED by /verif/extract (gotrans.go) from /repo/wal/wal.go on every check run. Do not edit.\n")
+	sb.WriteString("    `WAL.Write`: `buf` is the staging buffer (a list of bytes `β`; `bufferpool.Pool.Get` returns it empty and `binary.Write` into it\n")
+	sb.WriteString("    appends and cannot fail), `enc e` is `utils.TMarshal(&e)`, `len8 n` the eight little-endian bytes of `int64(n)`; the calls on the\n")
+	sb.WriteString("    file (`Seek`, the one `binary.Write(w.fd, …)`, `Sync`) are events, the write with the bytes it carries.\n")
+	sb.WriteString("    `Model/WalTie.lean` writes the result out: one write of all records, then one sync, before nil is returned. -/\n")
+	sb.WriteString("set_option linter.unusedVariables false\nnamespace GenWal\n\n")
+	fd := findFunc(p, "WAL", "Write")
+	wr := "binary.Write(w.fd, binary.LittleEndian, buf.Bytes())"
+	sp := transSpec{
+		leanName: "write",
+		binders:  "{ε β : Type} (enc : ε → List β) (len8 : Nat → List β) (nilFD seekFails : Bool) (marshalFails : ε → Bool) (writeFails syncFails : Bool) (entries : List ε) (ev : List (String × List β))",
+		retType:  "Bool × List (String × List β)",
+		exprMap:  map[string]string{"w.fd == nil": "nilFD", "err != nil": "err", "int64(len(data))": "data.length"},
+		state:    []string{"buf", "ev"}, stateLn: []string{"buf", "ev"}, evVar: "ev", stateTy: []string{"List β", "List (String × List β)"},
+		effects: map[string]string{"w.mu.Lock()": "w.mu.Lock|[]", "w.fd.Seek(0, io.SeekEnd)": "seek to the end|[]", wr: "write|buf", "w.fd.Sync()": "fsync|[]"},
+		binds: map[string][][2]string{
+			"w.fd.Seek(0, io.SeekEnd)":                     {{"err", "seekFails"}},
+			"bufferpool.Pool.Get()":                        {{"buf", "([] : List β)"}},
+			"utils.TMarshal(&entry)":                       {{"data", "(enc entry)"}, {"err", "(marshalFails entry)"}},
+			"binary.Write(buf, binary.LittleEndian, n)":    {{"buf", "(buf ++ len8 n)"}, {"err", "false"}},
+			"binary.Write(buf, binary.LittleEndian, data)": {{"buf", "(buf ++ data)"}, {"err", "false"}},
+			wr:            {{"err", "writeFails"}},
+			"w.fd.Sync()": {{"err", "syncFails"}},
+		},
+		skipStmt: func(st ast.Stmt) bool {
+			s := goStr(st)
+			return s == "defer w.mu.Unlock()" || s == "defer bufferpool.Pool.Put(buf)"
+		},
+		ret: func(vals []string, st []string) string {
+			if vals[0] == "nil" {
+				return "(true, ev)"
+			}
+			return "(false, ev)"
+		},
+		fallOff:  func(st []string) string { return "(true, ev)" },
+		panicVal: "(false, ev)",
+		skipCall: func(c *ast.CallExpr) bool {
+			s := goStr(c.Fun)
+			return strings.HasPrefix(s, "vhook.") || strings.Contains(s, ".logger.")
+		},
+	}
+	d := ""
+	err := fmt.Errorf("WAL.Write not found")
+	if fd != nil {
+		d, err = translateFunc(fd, sp)
+	}
+	if err != nil {
+		d = fmt.Sprintf("/-- UNTRANSLATABLE: %s -/\ndef write : Unit := ()\n", strings.ReplaceAll(err.Error(), "-/", "- /"))
+	}
+	sb.WriteString(d + "\n")
+	sb.WriteString("end GenWal\n")
+	if err := os.WriteFile(out, []byte(sb.String()), 0644); err != nil {
+		panic(err)
+	}
+}
+
 // genFilter: pkg/filter/filter.go — Add, Contains, Build
 func genFilter(repo, out string) {
 	p := parseDir(repo + "/pkg/filter")
